@@ -1498,3 +1498,70 @@ def _():
     f = ufl.Coefficient(space(m1, "DG", 1))
     x2 = ufl.SpatialCoordinate(m2)
     return f * dx(domain=m1) + f * f * ds(3, domain=m1) + x2[0] * f * dx(5, domain=m2)
+
+
+# ---- metadata given for some integrals of a subdomain and omitted for others ----------------------
+
+def _md_mix(cell, variant):
+    m = mesh(cell)
+    V = space(m)
+    u, v = TrialFunction(V), TestFunction(V)
+    f = ufl.Coefficient(V)
+    x = ufl.SpatialCoordinate(m)
+    gd = GD[cell]
+    y = x[gd - 1]
+    if variant == "deg_then_default":
+        return u * v * dx(degree=1) + f * f * u * v * dx
+    if variant == "default_then_deg":
+        return f * f * u * v * dx(degree=1) + u * v * dx
+    if variant == "vertex_then_deg":
+        return x[0] * y * v * dx(scheme="vertex", degree=1) + x[0] ** 2 * f * v * dx(degree=3)
+    if variant == "deg_then_vertex":
+        return x[0] ** 2 * f * v * dx(scheme="vertex", degree=1) + x[0] * y * v * dx(degree=3)
+    if variant == "three":
+        return f * v * dx(degree=0) + f * f * f * v * dx + x[0] * v * dx(scheme="vertex", degree=1) + y * y * f * v * dx(2) + f * v * dx(2, degree=1)
+    if variant == "facets":
+        return f * f * v * ds(degree=1) + x[0] * f * f * f * v * ds + f("+") * f("-") * v("+") * dS(degree=0) + f("+") ** 3 * v("-") * dS
+    raise ValueError(variant)
+
+
+for _cell in ["interval", "triangle", "quadrilateral", "tetrahedron"]:
+    for _var in ["deg_then_default", "default_then_deg", "vertex_then_deg", "deg_then_vertex", "three", "facets"]:
+        if _cell == "tetrahedron" and _var in ("three", "facets", "deg_then_default"):
+            continue
+        if _cell == "interval" and _var == "facets":
+            continue
+
+        def _mk(cell=_cell, var=_var):
+            return _md_mix(cell, var)
+
+        _it = ("exterior_facet", "interior_facet") if _var == "facets" else ("cell",)
+        reg(f"md_mix_{_var}_{_cell}", ("c02" if _var == "facets" else "c01") + " c11 c11md c08" + (" q" if _cell in ("triangle", "interval") else ""), itypes=_it)(_mk)
+
+
+# ---- complex mode: division by literals, purely imaginary literals ----------------------------------
+
+def _cplx_lit(variant):
+    m = mesh("triangle")
+    V = space(m)
+    u, v = TrialFunction(V), TestFunction(V)
+    f = ufl.Coefficient(V)
+    g = ufl.Coefficient(V)
+    if variant == "div_imag":
+        return inner(f / 2j, v) * dx + inner(f * u / (-0.25j), v) * dx
+    if variant == "div_general":
+        return inner(f / (1.5 + 2j), v) * dx + inner((f + g) / 3j, v) * dx
+    if variant == "mul_recip":
+        return inner(f * (1 / 2j), v) * dx + inner(u * g / 4j, v) * ds
+    if variant == "imag_pow_sub":
+        return inner(f - 2j * g, v) * dx + inner((3j) * f * g, v) * dx + inner(f / (g * g + 2.0) * 1j, v) * dx
+    if variant == "neg_imag":
+        return inner(-(2j) * f, v) * dx + inner(f * -1j - g / 1j, v) * dx
+    raise ValueError(variant)
+
+
+for _var in ["div_imag", "div_general", "mul_recip", "imag_pow_sub", "neg_imag"]:
+    def _mk(var=_var):
+        return _cplx_lit(var)
+
+    reg(f"cplx_literal_{_var}", "c09 q", scalar="complex128", itypes=("cell", "exterior_facet"))(_mk)
